@@ -205,7 +205,7 @@ class C06(PropBase):
                 self.mirror(dict(op, fault=None), dict(ev.memo))
             self.compare_held(op)
             return
-        if out["st"] == "ok":
+        if out["st"] == "ok" and not out.get("recalculation_failed"):
             # the failure was caught by a formula: the recalculation did not fail, and which execution met the failure
             # depends on the order of recomputation, which the statement leaves open - this history is not judged further
             ctx.count("recalculation_fault_handled_by_a_formula", 1, "reach")
